@@ -37,6 +37,11 @@ var configCmd = &cobra.Command{
 		if dotSplit[0] == "" || strings.Contains(args[0], "\n") || strings.Contains(args[1], "\n") {
 			return ErrInvalidArgs
 		}
+		// a key is read back up to the first '=', without tabs and without surrounding blanks:
+		// a key containing any of those would be taken for (and overwrite) another key
+		if key := dotSplit[1]; strings.ContainsAny(key, "=\t") || key != strings.TrimSpace(key) {
+			return ErrInvalidArgs
+		}
 
 		// get global flag
 		isGlobal, err := cmd.Flags().GetBool("global")
